@@ -95,7 +95,7 @@ def _split_template(text):
             body = s[4:].strip()
             kind = body.split(' ', 1)[0] if body else ''
             arg = body[len(kind):].strip()
-            if kind in ('default', 'heapmethods', 'unit'):
+            if kind in ('default', 'heapmethods', 'heapmethods2', 'unit'):
                 defaults.append(Directive(kind, arg, i + 1))
                 i += 1
                 continue
@@ -265,6 +265,8 @@ def generate(unit, template_path, repo=None, canary=False):
     g = Generated(unit)
     dflt = {'rewrites': ['R1', 'R2', 'R3', 'R5', 'R13'], 'ghost': None, 'ghostarg': None, 'props': [], 'loopinv': None, 'bodyprelude': None, 'attr': None}
     heapmethods = set()
+    heapmethods2 = set()
+    heap2_arg = None
     for d in defaults:
         if d.kind == 'default':
             kv, flags = _parse_kv(d.arg)
@@ -277,6 +279,13 @@ def generate(unit, template_path, repo=None, canary=False):
                     dflt[k] = v[-1]
         elif d.kind == 'heapmethods':
             heapmethods.update(d.arg.split())
+        elif d.kind == 'heapmethods2':
+            # a second group of methods threaded with its own ghost argument:  //@@ heapmethods2 "<ghost arg>" m1 m2 ...
+            m2 = re.match(r'^"([^"]*)"\s+(.*)$', d.arg)
+            if not m2:
+                raise AnchorError('bad heapmethods2 directive')
+            heap2_arg = m2.group(1)
+            heapmethods2.update(m2.group(2).split())
     sources = {}
     canary_flags = []
     segs = []   # (text, origin_kind, a, b)   origin: ('tmpl', first_lineno) | ('repo', path, first_line) | ('contract', fn, section)
@@ -485,6 +494,10 @@ def generate(unit, template_path, repo=None, canary=False):
             body, n = rw.append_ghost_arg(body, local_heap, ghostarg)
             count('R4', n)
             fi.rewrites['R4'] = n
+        if fi.is_fn and ghost and heap2_arg and heapmethods2:
+            body, n = rw.append_ghost_arg(body, heapmethods2, heap2_arg)
+            count('R4', n)
+            fi.rewrites['R4'] = fi.rewrites.get('R4', 0) + n
         # ---- signature edits + splices (collected as insertions at byte offsets of `body`)
         inserts = []   # (byte, text, origin)
         lowered = []
